@@ -56,6 +56,10 @@ func (f *Setf) Call(s *slip.Scope, args slip.List, depth int) (result slip.Objec
 		p := args[i]
 		i++
 		result = slip.EvalArg(s, args, i, d2)
+		switch result.(type) {
+		case *slip.ReturnResult, *GoTo:
+			return result
+		}
 		if vs, ok := result.(slip.Values); ok {
 			result = vs.First()
 		}
